@@ -659,7 +659,7 @@ def _markers_in(prog, root, crate):
     return ms
 
 
-def _controls(b, node, parents):
+def _controls(b, node, parents, prog=None):
     """Expressions evaluated before `node` that can influence what it computes: preceding statements of the enclosing blocks,
     conditions / guards / scrutinees of the enclosing branches, receivers of enclosing method chains, and the node itself."""
     # the node's own operands (not the callee's body: what the callee does happens afterwards)
@@ -681,6 +681,12 @@ def _controls(b, node, parents):
             res.append(p["guard"])
         elif k == "MethodCall" and nxt is not p.get("recv"):
             res.append(p["recv"])
+        if prog is not None and k in ("Call", "MethodCall") and hir.strip(nxt).get("k") == "Closure":
+            # the code stands in a closure that is handed to a local function (`locate(doctx, params, |uri, ident, scope, doc| ..)`):
+            # what that function does before it calls the closure comes first
+            hb = hir.local_callee_body(prog, p)
+            if hb is not None and hb["_crate"] is b["_crate"]:
+                res.append(hb["body"])
     return res
 
 
@@ -721,7 +727,7 @@ def _call_sites(prog, b, cmap):
 def _position_markers_at(prog, b, node, parents, cmap, depth):
     bc = b["_crate"]
     ms = set()
-    for r in _controls(b, node, parents):
+    for r in _controls(b, node, parents, prog):
         ms |= _markers_in(prog, r, bc)
     param_ids = {pp["id"] for q in b["params"] for pp in hir.pat_bindings(q)}
     operands = {(hir.path_local(x) or {}).get("id") for r in (list(node.get("args") or []) + ([node["recv"]] if node.get("recv") else []))
@@ -757,13 +763,13 @@ def _drops_local_scope(prog, root, crate, none_tables):
 def _position_effect(prog, b, node, parents, cmap, depth):
     """True / False / None: does a branch guarded by a type-position test drop the local scope?"""
     bc = b["_crate"]
-    roots = list(_controls(b, node, parents))
+    roots = list(_controls(b, node, parents, prog))
     param_ids = {pp["id"] for q in b["params"] for pp in hir.pat_bindings(q)}
     operands = {(hir.path_local(x) or {}).get("id") for r in (list(node.get("args") or []) + ([node["recv"]] if node.get("recv") else []))
                 for x in hir.nodes(r)}
     if depth > 0 and (operands & param_ids):
         for cb, cn, cparents in _call_sites(prog, b, cmap):
-            roots += _controls(cb, cn, cparents)
+            roots += _controls(cb, cn, cparents, prog)
     seen_guard = False
     for r in roots:
         all_nodes = list(hir.nodes_deep(prog, r, 5, crate=bc))
@@ -2123,20 +2129,33 @@ def rule_same_finder(prog):
             return out
         # the finder: the local function that hands out the vector of occurrences
         calls = []
-        for n in hir.nodes(b["body"], "Call"):
-            hb = hir.local_callee_body(prog, n)
-            if hb is None or hb["_crate"] is not c or "sig_out" not in hb:
-                continue
-            so = c.tstr(hb["sig_out"])
-            if "Vec<" in so and ("ast::Identifier" in so or "features::Ident" in so):
-                calls.append((hb["p"], n))
+        # (the call may sit in a helper both handlers share: `target.occurrences(|occurrence| ..)`)
+        level = [b]
+        for _ in range(3):
+            nxt_ = []
+            for lb in level:
+                for n in hir.nodes(lb["body"]):
+                    if n.get("k") not in ("Call", "MethodCall"):
+                        continue
+                    hb = hir.local_callee_body(prog, n)
+                    if hb is None or hb["_crate"] is not c or "sig_out" not in hb:
+                        continue
+                    so = c.tstr(hb["sig_out"])
+                    if "Vec<" in so and ("ast::Identifier" in so or "features::Ident" in so):
+                        calls.append((hb["p"], n))
+                    elif hb["p"].startswith("lsp4spl::features::references") and hb not in nxt_:
+                        nxt_.append(hb)
+            if calls or not nxt_:
+                break
+            level = nxt_
         sigs[fn] = [(p_,) + tuple((place(hir.strip_ref(a)) or "?").split("#")[0] for a in n["args"]) for p_, n in calls]
         r = tokens_arg_ok(b)
         ok_tk = r if r in (True, False) else None
         out.add("references::" + fn, "occurrences are converted against the whole token vector", ok_tk,
                 c.loc(b["sp"]), "")
     out.add("references", "find and rename use the same finder with the same arguments",
-            len(sigs["find"]) == 1 and sigs["find"] == sigs["rename"], "", "find: %s rename: %s" % (sigs["find"], sigs["rename"]))
+            (len(sigs["find"]) == 1 and sigs["find"] == sigs["rename"]) if (sigs["find"] or sigs["rename"]) else None, "",
+            "find: %s rename: %s" % (sigs["find"], sigs["rename"]))
     # prepare-rename offers a rename exactly when rename performs one: both refuse under the same conditions
     def shape(e, depth=0):
         e = hir.strip_ref(e)
